@@ -19,6 +19,8 @@ type Tok struct {
 	// the expression that ends with this token cannot be called, indexed or tagged (a postfix update, an arrow function
 	// with a block body): a ( [ or template on the next line starts a new statement
 	EndsUncallable bool
+	NeedLT         bool // a line terminator must stand in front of this token
+	EndsClosed     bool // ends an expression that no binary operator can continue (an arrow function with a block body, a bare yield): + - and a regular expression on the next line start a new statement
 }
 
 // Out is a generated fragment: its tokens and the expected String() of the node.
@@ -81,6 +83,7 @@ type G struct {
 	noIn       bool
 	labels     []string
 	forcePlain bool // the next function is neither async nor a generator
+	forceGen   bool // the next method is a plain generator method (no static, async, get, set)
 	nameSeq    int
 	Declared   []string // names declared so far (unique, so that no redeclaration error can arise)
 	Module     bool     // import/export declarations allowed at top level
@@ -221,7 +224,7 @@ func (g *G) node(level int) (Out, int) {
 		g.Kinds["yield"]++
 		switch g.intn("yieldform", 3) {
 		case 0:
-			return Out{tk("yield"), "(yield)"}, LAssign
+			return Out{[]Tok{{S: "yield", EndsClosed: true}}, "(yield)"}, LAssign
 		case 1:
 			e := g.Expr(LAssign)
 			return Out{cat(tk("yield"), noLT(e.Toks)), "(yield " + e.Str + ")"}, LAssign
@@ -868,6 +871,7 @@ func (g *G) arrow() Out {
 	if g.chance("blockbody", 2) {
 		b := g.body()
 		b.Toks[len(b.Toks)-1].EndsUncallable = true
+		b.Toks[len(b.Toks)-1].EndsClosed = true
 		toks = append(toks, b.Toks...)
 		bodyStr = b.Str
 	} else {
@@ -890,12 +894,17 @@ func (g *G) method(class bool) Out {
 	defer func() { g.depth-- }()
 	var toks []Tok
 	var mods []string
-	if class && g.chance("static", 4) {
+	forced := g.forceGen
+	g.forceGen = false
+	if !forced && class && g.chance("static", 4) {
 		toks = append(toks, Tok{S: "static"})
 		mods = append(mods, "static")
 	}
 	async, gen := false, false
 	kind := g.intn("methodkind", 6)
+	if forced {
+		kind = 1
+	}
 	switch kind {
 	case 0:
 		async = true
@@ -973,7 +982,21 @@ func (g *G) class(expr bool) Out {
 		n = 0
 	}
 	for i := 0; i < n; i++ {
-		switch g.intn("member", 6) {
+		switch g.intn("member", 7) {
+		case 6:
+			// a field named get, set or async, ended by a line terminator in front of a generator method
+			g.Kinds["field-before-generator"]++
+			f := ""
+			if g.chance("static", 3) {
+				toks = append(toks, Tok{S: "static"})
+				f = "static "
+			}
+			kw := g.pick("fieldkw", []string{"get", "set", "async"})
+			g.forceGen = true
+			m := g.method(true)
+			m.Toks[0].NeedLT = true
+			toks = append(toks, cat(tk(kw), m.Toks)...)
+			s += " Field(" + f + kw + ") " + m.Str
 		case 0, 1, 2:
 			m := g.method(true)
 			toks = append(toks, m.Toks...)
